@@ -122,7 +122,7 @@ theorem c11_shallow_unique_partial (k fuel : Nat) (r r' : Registry) (p : PkgRef)
       rw [hclimb] at h
       have hsh := resolve_shallow fuel
         ⟨stripVendorPath p.path, p.name, aliasOf r.aliases (stripVendorPath p.path)⟩ r.imports c.path (0 + k)
-        hne (by simpa using hd) (by simpa using hfa) (by simpa using hfb)
+        hne (by simpa using hd) (by simpa using hna) (by simpa using hfa) (by simpa using hfb)
       simp only [] at hsh
       rw [hsh] at h
       simp only [Option.map_some, Option.some.injEq, Prod.mk.injEq] at h
